@@ -56,6 +56,7 @@ TokenVerdict(tr) ==
      ELSE IF a = b THEN "ok"
      ELSE IF tr.v312 /\ fstr THEN "SignificantTokensAgree:fstring-3.12"
      ELSE IF tr.ff THEN "SignificantTokensAgree:formfeed-in-indentation"
+     ELSE IF tr.bs THEN "SignificantTokensAgree:backslash-continuation-at-line-start"
      ELSE "SignificantTokensAgree"
 
 SyntaxVerdict(tr) ==
